@@ -189,7 +189,20 @@ type env struct {
 	gaps bool
 }
 
-func addr(c int) net.Addr { return &net.UDPAddr{IP: net.IPv4(10, 0, 0, byte(10+c)), Port: 4000 + c} }
+// addrKind is the kind of client address of the history that is running (histories run one after the other): UDP over
+// IPv4, UDP over IPv6 with a zone, or the socket paths of a unixgram listener - the server is documented to listen on
+// any packet network, and clients are told apart by their address whatever it looks like.
+var addrKind int
+
+func addr(c int) net.Addr {
+	switch addrKind {
+	case 1:
+		return &net.UDPAddr{IP: net.ParseIP("fe80::1"), Port: 4000, Zone: fmt.Sprintf("eth%d", c)}
+	case 2:
+		return &net.UnixAddr{Name: fmt.Sprintf("/run/c09/client-%d.sock", c), Net: "unixgram"}
+	}
+	return &net.UDPAddr{IP: net.IPv4(10, 0, 0, byte(10+c)), Port: 4000 + c}
+}
 
 func (e *env) datagram(c int, cmd string, size int) []byte {
 	s := fmt.Sprintf("C%d:%d:%s:%d:", c, e.seq[c], cmd, size)
@@ -254,6 +267,8 @@ func sizes(t *rapid.T) int {
 }
 
 func runHistory(t *rapid.T, idle time.Duration) {
+	addrKind = []int{0, 0, 0, 1, 2, 2}[rapid.IntRange(0, 5).Draw(t, "addressKind")]
+	hx.Class(fmt.Sprintf("C09/client-addresses/%s", []string{"udp4", "udp6-zones", "unixgram"}[addrKind]), 1)
 	e := start(t, idle)
 	nclients := rapid.IntRange(1, 4).Draw(t, "clients")
 	fail := func(key, format string, a ...any) {
